@@ -199,6 +199,18 @@ theorem tiersAddAll_id {acc T : Tiers} (h : TiersOK isUrl (acc ++ T)) :
     rw [hins]
     simpa using ih h'
 
+/-- the loop inside `Trackers.replace` (object state kept on failure) agrees with `tiersAddAll` -/
+theorem heldReplaceLoop_of_addAll {T T' : Tiers} {vs : List TierVal}
+    (h : tiersAddAll isUrl T vs = .ok T') : heldReplaceLoop isUrl T vs = (T', .ok) := by
+  induction vs generalizing T with
+  | nil => unfold tiersAddAll at h; cases h; rfl
+  | cons v vs ih =>
+    unfold tiersAddAll at h
+    unfold heldReplaceLoop
+    split at h
+    · cases h
+    · exact ih h
+
 theorem tiersExtendLoop_ok {T T' : Tiers} {last last' : Option Tiers}
     {vs : List TierVal} {out : Outcome} (hT : TiersOK isUrl T)
     (hl : ∀ l, last = some l → TiersOK isUrl l)
@@ -241,9 +253,10 @@ theorem tiersSetItem_ok {T : Tiers} {i : Int} {v : TierVal}
           (fun u hu' => (flatten_sublist (splice_nil_sublist T (Nat.le_succ k))).subset hu')
     · cases hr; exact ⟨T, hT, rfl⟩
 
-/-- an operation on a tier other than index/slice assignment hands good tiers to the callback -/
+/-- every operation on a tier (index and slice assignment included; an assignment that empties the
+    tier removes it) hands good tiers to the callback -/
 theorem tierOp_ok {T : Tiers} {ti : Int} {op : UOp} {w : Written}
-    {out : Outcome} (hT : TiersOK isUrl T) (hop : op.isSet = false)
+    {out : Outcome} (hT : TiersOK isUrl T)
     (hr : tierOp isUrl T ti op = (some w, out)) : ∃ T', TiersOK isUrl T' ∧ w = wOf T' := by
   unfold tierOp at hr
   split at hr
@@ -277,12 +290,12 @@ theorem tierOp_ok {T : Tiers} {ti : Int} {op : UOp} {w : Written}
         | some t' =>
           rw [hl] at hr ho
           simp only [Option.map_some, Prod.mk.injEq, Option.some.injEq] at hr
-          exact ⟨_, afterTier_ok hT (urlsOp_ok hu hop ho), hr.1.symm⟩
+          exact ⟨_, afterTier_ok hT (urlsOp_ok hu ho), hr.1.symm⟩
 
-/-- operations on the tiers container covered by the invariant theorem -/
+/-- operations on the tiers container covered by the invariant theorem: everything except the
+    slice assignment `trackers[a:b] = …` (open finding D16b) -/
 def TOp.clean : TOp → Bool
   | .setSlice .. => false
-  | .tier _ op => !op.isSet
   | _ => true
 
 theorem tiersOp_ok {T : Tiers} {op : TOp} {w : Written}
@@ -354,23 +367,21 @@ theorem tiersOp_ok {T : Tiers} {op : TOp} {w : Written}
     simp only [tiersOp] at hr
     split at hr
     · cases hr
-    · rename_i T' h1; cases hr; exact ⟨T', tiersAddAll_ok TiersOK_nil h1, rfl⟩
+    · rename_i T1 h1
+      split at hr
+      · cases hr
+      · rename_i T' h2; cases hr; exact ⟨T', tiersAddAll_ok TiersOK_nil h2, rfl⟩
   | setItem i v => simp only [tiersOp] at hr; exact tiersSetItem_ok hT hr
   | setSlice a b vs => simp [TOp.clean] at hop
   | tier ti op =>
     simp only [tiersOp] at hr
-    have : op.isSet = false := by simpa [TOp.clean] using hop
-    exact tierOp_ok hT this hr
+    exact tierOp_ok hT hr
 
 /-! ### webseeds / httpseeds -/
 
 /-- a stored seed field: what `_webseeds_changed` writes for a good list -/
 def SeedsField (isUrl : String → Bool) (f : Option (List String)) : Prop :=
   ∃ W, UOK isUrl [] W ∧ f = writeSeeds W
-
-def SOp.clean : SOp → Bool
-  | .edit op => !op.isSet
-  | _ => true
 
 theorem getSeeds_writeSeeds {W : List String} (h : UOK isUrl [] W) :
     getSeeds isUrl (writeSeeds W) = .ok W := by
@@ -388,7 +399,7 @@ theorem lastSeeds_ok {stored last : Option (List String)} (hs : SeedsField isUrl
   | some l => exact ⟨l, hl l rfl, rfl⟩
 
 theorem seedsOp_ok {stored f : Option (List String)} {op : SOp}
-    {out : Outcome} (hs : SeedsField isUrl stored) (hop : op.clean = true)
+    {out : Outcome} (hs : SeedsField isUrl stored)
     (hr : seedsOp isUrl stored op = (f, out)) : SeedsField isUrl f := by
   cases op with
   | set v =>
@@ -404,7 +415,6 @@ theorem seedsOp_ok {stored f : Option (List String)} {op : SOp}
       | list us => simp only [mkSeeds] at hm; exact urlsReplace_ok hm
       | other => simp only [mkSeeds] at hm; cases hm
   | edit uop =>
-    have hop' : uop.isSet = false := by simpa [SOp.clean] using hop
     obtain ⟨W, hW, rfl⟩ := hs
     have hs : SeedsField isUrl (writeSeeds W) := ⟨W, hW, rfl⟩
     have generic : ∀ {last : Option (List String)} {out' : Outcome},
@@ -412,7 +422,7 @@ theorem seedsOp_ok {stored f : Option (List String)} {op : SOp}
       intro last out' ho
       apply lastSeeds_ok hs
       intro l hl; subst hl
-      exact urlsOp_ok hW hop' ho
+      exact urlsOp_ok hW ho
     cases uop with
     | iadd us =>
       simp only [seedsOp, getSeeds_writeSeeds hW] at hr
@@ -427,8 +437,6 @@ theorem seedsOp_ok {stored f : Option (List String)} {op : SOp}
         split at hr
         · cases hr; exact lastSeeds_ok hs hx.1
         · rename_i items' h2; cases hr; exact ⟨items', urlsReplace_ok h2, rfl⟩
-    | setItem i u => simp [UOp.isSet] at hop'
-    | setSlice a b us => simp [UOp.isSet] at hop'
     | _ =>
       simp only [seedsOp, getSeeds_writeSeeds hW] at hr
       simp only [Prod.mk.injEq] at hr
@@ -519,18 +527,17 @@ theorem trackersOp_inv {s : MI} {op : TOp}
       obtain ⟨T', hT', rfl⟩ := tiersOp_ok hT hop ho
       exact ⟨writeTrackers_fields s hT', rfl, rfl⟩
 
-/-- operations covered by the invariant theorem: everything except index/slice assignment on a
-    URL list and slice assignment on the tiers -/
+/-- operations covered by the invariant theorem: everything except slice assignment on the tiers -/
 theorem affected_false_iff {op : Op} :
     op.affected = false ↔
       match op with
       | .trackers t => t.clean = true
-      | .webseeds o => o.clean = true
-      | .httpseeds o => o.clean = true := by
+      | .webseeds _ => True
+      | .httpseeds _ => True := by
   cases op with
   | trackers t => cases t <;> simp [Op.affected, TOp.clean]
-  | webseeds o => cases o <;> simp [Op.affected, SOp.clean]
-  | httpseeds o => cases o <;> simp [Op.affected, SOp.clean]
+  | webseeds o => simp [Op.affected]
+  | httpseeds o => simp [Op.affected]
 
 theorem step_inv {s : MI} {op : Op} (hs : Inv isUrl s)
     (hop : op.affected = false) : Inv isUrl (step isUrl s op).1 := by
@@ -544,11 +551,11 @@ theorem step_inv {s : MI} {op : Op} (hs : Inv isUrl s)
   | webseeds o =>
     simp only [step]
     rcases ho : seedsOp isUrl s.urlList o with ⟨f, out⟩
-    exact ⟨ht, seedsOp_ok hw hc ho, hh⟩
+    exact ⟨ht, seedsOp_ok hw ho, hh⟩
   | httpseeds o =>
     simp only [step]
     rcases ho : seedsOp isUrl s.httpseeds o with ⟨f, out⟩
-    exact ⟨ht, hw, seedsOp_ok hh hc ho⟩
+    exact ⟨ht, hw, seedsOp_ok hh ho⟩
 
 theorem run_inv {s : MI} {ops : List Op} (hs : Inv isUrl s)
     (hop : ∀ op ∈ ops, op.affected = false) : Inv isUrl (run isUrl s ops) := by
